@@ -205,6 +205,7 @@ def run_unit(seed=None, unit=None, tier="quick", stats=None):
     sched_tapes = []
     n = n_sched if sched_values is None else len(sched_values)
     orders = set()
+    max_ext = 0
     for r in range(n):
         st = (Tape(values=sched_values[r]) if sched_values is not None
               else Tape((seed, "sched", r)))
@@ -259,6 +260,7 @@ def run_unit(seed=None, unit=None, tier="quick", stats=None):
             v.detail["decisions"] = sim.decision_trace[:60]
             v.detail["alloc"] = al.policy
         violations += vs
+        max_ext = max(max_ext, len(sim.externals))
         sd = sim.digest()
         digests.append(sd)
         digests.append([x[0] for x in results if x])
@@ -275,6 +277,51 @@ def run_unit(seed=None, unit=None, tier="quick", stats=None):
                 "response": results[0][0] if results[0] else None,
             }
         sim.close()
+    # permutation sweep: for tiny scenarios walk *all* sequences of "which pending external
+    # completes next" (one completion per idle point), bounded at 120 runs; a policy inside the
+    # seeded search, reported separately, not a claim about anything larger
+    if (unit is None and focus is None and seed[2] % 3 == 0 and sched_tapes
+            and 2 <= max_ext <= 5 and not violations):
+        swept = 0
+        picks = []
+        while swept < 120:
+            # mode=choice, fire_den=1 (no extra completions), immediate delivery, alloc=fresh
+            vals = [0, 4, 0, 0, 0]
+            for p in picks:
+                vals += [p, 0]
+            st = Tape(values=vals)
+            st.trace = []
+            sim, reqs, results, status, al = run_async(scn, st)
+            swept += 1
+            bad = status == "stepcap"
+            for i, rs in enumerate(scn.requests):
+                res = results[i]
+                if res is None or res[1] is not None:
+                    bad = True
+                    continue
+                rv = check_response(PROP, res[0], rs.result, who="async")
+                rv += check_invocations(PROP, reqs[i], rs.result, res[0].get("data"), who="async")
+                if rv:
+                    for v in rv:
+                        v.fingerprint["sweep"] = True
+                        v.detail["sweep_picks"] = list(picks)
+                    violations += rv
+                    sched_tapes.append(st)
+            sim.close()
+            ns = [n_ for (lab, n_, _v) in st.trace if lab == "idle_pick"]
+            got = [v_ for (lab, _n, v_) in st.trace if lab == "idle_pick"]
+            if bad or violations:
+                break
+            # odometer: next sequence of picks given the branching just observed
+            k = len(ns) - 1
+            while k >= 0 and got[k] + 1 >= ns[k]:
+                k -= 1
+            if k < 0:
+                bump(stats, "probes", "permutation_sweeps_completed")
+                break
+            picks = got[:k] + [got[k] + 1]
+        bump(stats, "counts", "async_execs", swept * len(scn.requests))
+        bump(stats, "probes", "permutation_sweep_runs", swept)
     if len(orders) >= 3:
         bump(stats, "probes", "scenarios_with_3plus_completion_orders")
     info["unit"] = {"plan": ptape.used(), "scheds": [t.used() for t in sched_tapes],
